@@ -104,6 +104,7 @@ pub fn run_tsan_stage(st: &mut Stats, tier: Tier, seed: u64) {
         .args(["C09T", tier.name(), "--seed", &format!("{}", seed as i64)])
         .env("FV_ROOT", &out_root)
         .env("FV_NO_TSAN", "1")
+        .env("FV_INPROCESS", "1")
         .env("TSAN_OPTIONS", format!("halt_on_error=0 report_signal_unsafe=0 log_path={log_prefix} exitcode=0"))
         .output();
     let Ok(run) = run else {
